@@ -177,7 +177,10 @@ def run_shard(ctx):
         out = progcheck.one_case(
             ctx, i, PROFILE, 'c04',
             prog_fn=crossing if i % 10 == 9 else
-            own_bounds if i % 10 == 4 else None)
+            own_bounds if i % 10 == 4 else None,
+            made_under=gen.random_population if i % 10 == 7 else None)
+        if i % 10 == 7:
+            ctx.count('jobs_made_under_another_population')
         if out is None:
             continue
         looped = out.stats.get('st:repeat', 0) > 0
